@@ -10,6 +10,7 @@
 import concurrent.futures as cf
 import json, os, re
 import vlib
+import keepalive_part
 
 LEVEL = "model_checking"
 PROTOS = ("http1", "xpp")
@@ -252,7 +253,13 @@ def run(ctx):
                        "(1 and 2 client indexes), the HTTP/2 pool and the binding pool (2 downstream connections, plus the operation 'downstream connection closes')") % (
                            depth, "6 of {0,1,2}^2" if q else "{0,1,2}^2", 4 if q else 5, len(deep_lines),
                            mdepth, mdepth + 1, "{0,2}" if q else "{0,1,2}")
+    # 5. the pooled connection while no request uses it: heartbeats, fail / idle close (KeepAlive.tla)
+    keepalive_part.run_part(ctx, "C09")
+    ctx.cov["rule"] += ("; keep-alive of a pooled connection (KeepAlive): TLC-enumerated operation sequences over {tick, ordinary stream, answer, "
+                        "time-out, late answer, peer closes} for tick thresholds x fail threshold x idle limit, replayed into the real keep-alive object "
+                        "with logical time-outs, real timers and the real fast-fail task")
     ctx.assumptions += [
+        "keep-alive runs: the peer is the driver; a tick is a direct SendKeepAlive() call (what keepAliveListener does on a read-idle event); logical time-out = HandleTimeout(id), what the heartbeat's timer calls",
         "the scripted upstream answers/closes exactly when the driver says; connect failure = a loopback port that refuses",
         "xprotocol ping-pong pool is driven with a harness codec: bolt wire format with PoolMode()=PingPong and no heartbeat",
         "go-away: HTTP/1 'Connection: close' response, xprotocol GoAway frame before the response; the upstream itself keeps the connection open",
